@@ -67,7 +67,21 @@ def analyse(ctx, case, run, S):
         ctx.case_samples.append({'scenario': cfg})
 
 
+def documented_prover_cases(ctx):
+    """concrete (real crates, stated as such): a proof made by the independent paper-form prover with the DOCUMENTED seed nonces (refimpl.rs) under a seeded
+    statement is accepted and its recovered mask is the blinding vector — recovery is not merely self-consistent with the library's own prover"""
+    from lib import run_replay
+    for (n, cap, x) in [(8, 1, 1), (64, 2, 3), (4, 1, 6), (2, 4, 2)]:
+        cfg = {'scenario': 'batch', 'n': n, 'x': x, 'members': [{'m': 1, 'cap': cap, 'seeded': True, 'promises': ['1']}], 'reference_prover': True}
+        o = run_replay(cfg, ctx.seed)
+        rp = (o.get('reference_prover') or [{}])[0] if 'crash' not in o else {}
+        ok = rp.get('reference_prove') == 'ok' and rp.get('library_verify') == 'ok' and rp.get('masks') == [rp.get('expected_mask')]
+        ctx.expect(ok, 'C09:documented-prover', 'n%d cap%d x%d: the mask of a proof made by the independent prover with the documented seed nonces is not recovered: %s' % (n, cap, x, str(rp)[:200]),
+                   cfg, 'reference_prover_rejected')
+
+
 def run(ctx):
+    documented_prover_cases(ctx)
     parallel_cases(ctx, cases(ctx.tier), analyse)
     bounds = {'configurations': 'n in lattice, x in 1..6, capacity in {1,2,8}, m = 1 for recovery; batches mixing seeded / unseeded / aggregated members in every order (k <= 3 quick, 4 thorough)',
               'within': 'seed, blindings (distinct variables per component), values, promises, nonces and challenges symbolic'}
